@@ -125,6 +125,7 @@ structure HSt where
   tmp : Option XSa := none   -- a local `new_ike_sa` that is not (yet) assigned to the attribute
   tape : Tape
   nl : List NlOp := []
+  sad : List (Bytes × Nat × Bytes) := []     -- the kernel's SAD as the requests issued so far have left it (daddr, protocol, SPI)
   deriving Repr
 
 inductive Exc where
@@ -340,22 +341,41 @@ def withoutDh (p : Proposal) : Proposal := { p with transforms := p.transforms.f
 
 /-! ### kernel -/
 
-/-- `Xfrm.create_child_sa`: outbound SA first, then inbound; if the second is refused the first is removed again.
-    The oracle says how far the kernel went; every attempted request is listed. -/
-def installChild (c : Child) : HM Unit := do
-  let me ← getMe
-  let proto := ipsecProto c.proposal.proto
-  let out := NlOp.newSa me.core.peerAddr proto c.outSpi
-  let inn := NlOp.newSa me.core.myAddr proto c.inSpi
-  match ← popNum with
-  | 0 => emitNl [out, inn]
-  | 1 => emitNl [.refusedNewSa me.core.peerAddr proto c.outSpi]; HM.raise .netlink
-  | _ => emitNl [out, .refusedNewSa me.core.myAddr proto c.inSpi, .delSa me.core.peerAddr proto c.outSpi]; HM.raise .netlink
+/-- the kernel's keys of the two SAs of a CHILD_SA as this object installs them: outbound towards the peer, inbound towards us -/
+def outKey (x : XSa) (c : Child) : Bytes × Nat × Bytes := (x.core.peerAddr, ipsecProto c.proposal.proto, c.outSpi)
+def inKey (x : XSa) (c : Child) : Bytes × Nat × Bytes := (x.core.myAddr, ipsecProto c.proposal.proto, c.inSpi)
 
-/-- `Xfrm.delete_child_sa` (a refusal is logged, never raised) -/
-def uninstallChild (c : Child) : HM Unit := do
-  let me ← getMe
-  emitNl (delChildOps me.core c.ref)
+/-- the kernel-verdict oracle: how far `create_child_sa` got, as far as the oracle has a say -/
+def popVerdict (t : Tape) : Nat × Tape :=
+  match t.vals with
+  | .num n :: rest => (n, { t with vals := rest })
+  | _ :: rest => (0, { vals := rest, bad := true })
+  | [] => (0, { t with bad := true })
+
+/-- `Xfrm.create_child_sa` followed by `child_sas.append`: outbound SA first, then inbound; if the second is refused the first
+    is removed again; the CHILD_SA is tracked only when the kernel holds both.  The kernel refuses a key it already holds
+    (EEXIST) and whatever else the oracle says it refuses (1: the first request, 2: the second); every attempted request is
+    listed, the SAD follows the accepted ones. -/
+def trackChild (c : Child) : HM Unit := fun s =>
+  let ok := outKey s.me c
+  let ik := inKey s.me c
+  let v := (popVerdict s.tape).1
+  let tape := (popVerdict s.tape).2
+  if s.sad.contains ok ∨ v = 1 then
+    (.error .netlink, { s with tape := { tape with bad := tape.bad || (v = 0) || (v ≥ 2) }, nl := s.nl ++ [.refusedNewSa ok.1 ok.2.1 ok.2.2] })
+  else if s.sad.contains ik ∨ ik = ok ∨ v ≥ 2 then
+    (.error .netlink, { s with tape := { tape with bad := tape.bad || (v = 0) },
+                               nl := s.nl ++ [.newSa ok.1 ok.2.1 ok.2.2, .refusedNewSa ik.1 ik.2.1 ik.2.2, .delSa ok.1 ok.2.1 ok.2.2] })
+  else
+    (.ok (), { s with tape := tape, nl := s.nl ++ [.newSa ok.1 ok.2.1 ok.2.2, .newSa ik.1 ik.2.1 ik.2.2], sad := s.sad ++ [ok, ik],
+                      me := s.me.setKids (s.me.ext.kids ++ [c]) })
+
+/-- `Xfrm.delete_child_sa` (a refusal is logged, never raised) followed by `child_sas.remove` -/
+def untrackChild (c : Child) : HM Unit := fun s =>
+  let ok := outKey s.me c
+  let ik := inKey s.me c
+  (.ok (), { s with nl := s.nl ++ [.delSa ok.1 ok.2.1 ok.2.2, .delSa ik.1 ik.2.1 ik.2.2], sad := s.sad.filter fun e => e ≠ ok ∧ e ≠ ik,
+                    me := s.me.setKids (removeKid s.me.ext.kids c) })
 
 /-! ### which object a negotiation routine works on -/
 
@@ -594,8 +614,7 @@ def childCreateResponder (chosen : Proposal) (chosenTsr chosenTsi : TS) (mode : 
   -- (`chosen.spi = inbound_spi` is later assigned to the very object the ChildSa refers to)
   let child : Child := { outSpi := chosen.spi, inSpi := spi, proposal := { chosen with spi := spi }, tsi := [chosenTsr], tsr := [chosenTsi],
                          mode := mode, lifetime := pol.lifetime, orig := pol.proposal }
-  installChild child
-  addKid child
+  trackChild child
   pure child
 
 /-- the body of the `try` of `_process_create_child_sa_negotiation_req` -/
@@ -683,8 +702,7 @@ def deleteSpis (proto : Nat) : List Bytes → List Payload → HM (List Payload)
     match getKid me.ext.kids spi with
     | some c =>
       if c.proposal.proto = proto then do
-        uninstallChild c
-        dropKid c
+        untrackChild c
         deleteSpis proto rest (acc ++ [mkP ptDELETE (.delete proto [c.inSpi])])
       else deleteSpis proto rest acc
     | none => deleteSpis proto rest acc
@@ -866,8 +884,7 @@ def childNegotiationResBody (response : Msg) : HM Unit := do
         if ¬ initiatorTsOk creating.tsi creating.tsr chosenTsi chosenTsr then HM.raise excTsUnacceptable
         let child := { creating with outSpi := chosen.spi, proposal := chosen, tsi := [chosenTsi], tsr := [chosenTsr] }
         modExt fun e => { e with creating := some child }
-        installChild child
-        addKid child
+        trackChild child
       | _, _ => HM.raise excPython
 
 def childNegotiationRes (response : Msg) : HM ChildRes := do
@@ -964,8 +981,7 @@ def processInformationalResponse (response : Msg) : HM HRes := do
     match me.ext.deleting with
     | some d =>
       if me.ext.kids.any (childEq d) then do
-        uninstallChild d
-        dropKid d
+        untrackChild d
       else pure ()
     | none => pure ()
     setState stESTABLISHED
@@ -1000,16 +1016,17 @@ structure XOut where
   res : HRes
   nl : List NlOp
   tape : Tape
+  sad : List (Bytes × Nat × Bytes)
   deriving Repr
 
-def runH (h : HM HRes) (me : XSa) (succ : Option XSa) (tape : Tape) : XOut :=
-  match h { me := me, succ := succ, tape := tape } with
-  | (.ok r, s) => { me := s.me, succ := s.succ, res := r, nl := s.nl, tape := s.tape }
-  | (.error (.ike n), s) => { me := s.me, succ := s.succ, res := .ikeError n, nl := s.nl, tape := s.tape }
-  | (.error (.other n), s) => { me := s.me, succ := s.succ, res := .otherError n, nl := s.nl, tape := s.tape }
-  | (.error .netlink, s) => { me := s.me, succ := s.succ, res := .otherError (mkNotify 0 nINVALID_SYNTAX [] []), nl := s.nl, tape := s.tape }
+def runH (h : HM HRes) (me : XSa) (succ : Option XSa) (tape : Tape) (sad : List (Bytes × Nat × Bytes)) : XOut :=
+  match h { me := me, succ := succ, tape := tape, sad := sad } with
+  | (.ok r, s) => { me := s.me, succ := s.succ, res := r, nl := s.nl, tape := s.tape, sad := s.sad }
+  | (.error (.ike n), s) => { me := s.me, succ := s.succ, res := .ikeError n, nl := s.nl, tape := s.tape, sad := s.sad }
+  | (.error (.other n), s) => { me := s.me, succ := s.succ, res := .otherError n, nl := s.nl, tape := s.tape, sad := s.sad }
+  | (.error .netlink, s) => { me := s.me, succ := s.succ, res := .otherError (mkNotify 0 nINVALID_SYNTAX [] []), nl := s.nl, tape := s.tape, sad := s.sad }
 
-def runGen (h : HM Msg) (me : XSa) (succ : Option XSa) (tape : Tape) : XOut :=
-  runH (do let r ← h; pure (.request r)) me succ tape
+def runGen (h : HM Msg) (me : XSa) (succ : Option XSa) (tape : Tape) (sad : List (Bytes × Nat × Bytes)) : XOut :=
+  runH (do let r ← h; pure (.request r)) me succ tape sad
 
 end PyIkev2.Impl
